@@ -90,7 +90,8 @@ func decodeWithWatchdog(b []byte, limit time.Duration) (msg *dns.Message, err er
 			return nil, nil, fmt.Sprint("panic: ", r.p)
 		}
 		return r.m, r.err, ""
-	case <-time.After(limit):
+	case <-time.After(max(limit, watchdogLimit())):
+		noteHang()
 		return nil, nil, "hang"
 	}
 }
